@@ -33,6 +33,12 @@ async def fail(*a, **kw):
     raise RuntimeError("boom")
 
 
+async def failnl(*a, **kw):
+    """A worker that raises at once, with a message that ends in a newline."""
+    _log("failnl", a, kw)
+    raise RuntimeError("boom with a newline at the end\n")
+
+
 def plain(*a, **kw):
     """Not a coroutine function."""
     _log("plain", a, kw)
